@@ -867,6 +867,7 @@ fn prochist_last_world(root: &std::path::Path, prop: &str, full: &[World], last:
         detail: format!("the last world's observation after the preceding {} world(s) in the same process differs from its observation in a pristine process", worlds.len() - 1),
         cargo_features: features().to_string(),
         worlds,
+        recorded: Vec::new(),
     };
     let dir = root.join("replays");
     let _ = std::fs::create_dir_all(&dir);
@@ -1133,6 +1134,10 @@ fn confirm_and_minimise(root: &std::path::Path, v: &VMsg) -> Triage {
         Ok(true) => min,
         _ => v.worlds.clone(),
     };
+    let recorded = match run_worlds_fresh(&v.prop, &worlds, 60) {
+        Ok((_, r)) => r.traces,
+        Err(_) => Vec::new(),
+    };
     let rf = ReplayFile {
         property: v.prop.clone(),
         violation_class: v.class.clone(),
@@ -1140,6 +1145,7 @@ fn confirm_and_minimise(root: &std::path::Path, v: &VMsg) -> Triage {
         detail: v.detail.clone(),
         cargo_features: features().to_string(),
         worlds,
+        recorded,
     };
     let dir = root.join("replays");
     let _ = std::fs::create_dir_all(&dir);
@@ -1172,6 +1178,7 @@ fn xproc_violation(root: &std::path::Path, prop: &str, worlds: &[World], why: &s
             detail: why.to_string(),
             cargo_features: features().to_string(),
             worlds: worlds.to_vec(),
+            recorded: Vec::new(),
         };
         let dir = root.join("replays");
         let _ = std::fs::create_dir_all(&dir);
@@ -1226,6 +1233,15 @@ pub fn replay(path: &str) -> i32 {
         Ok((vs, r)) => {
             for o in &r.outcomes {
                 println!("  {}", o);
+            }
+            if !rf.recorded.is_empty() && r.traces.len() == rf.recorded.len() {
+                let same_sched = r.traces.iter().zip(&rf.recorded).all(|(a, b)| a.0 == b.0);
+                let same_digest = r.traces.iter().zip(&rf.recorded).all(|(a, b)| a.1 == b.1);
+                println!(
+                    "simc: schedule decisions {} the recorded ones; event digests {} the recorded ones",
+                    if same_sched { "equal" } else { "DIFFER from" },
+                    if same_digest { "equal" } else { "differ from (expected when the tree changed)" }
+                );
             }
             if r.stats.get("replay.trace_mismatch").copied().unwrap_or(0) > 0 {
                 println!("simc: warning: recorded schedule trace could not be followed exactly");
@@ -1309,7 +1325,7 @@ pub fn dump(prop: &str, tag: &str) -> i32 {
     let base = mix(verif_seed(), if prop == "C05" { 0xC05 } else { 0xC16 });
     match world_of_tag(prop, base, tag, &corpus) {
         Some(w) => {
-            let rf = ReplayFile { property: prop.into(), violation_class: "?".into(), violation_key: "?".into(), detail: tag.into(), cargo_features: features().into(), worlds: vec![w] };
+            let rf = ReplayFile { property: prop.into(), violation_class: "?".into(), violation_key: "?".into(), detail: tag.into(), cargo_features: features().into(), worlds: vec![w], recorded: Vec::new() };
             println!("{}", serde_json::to_string_pretty(&rf).unwrap());
             0
         }
